@@ -19,7 +19,9 @@ CFGS = {
     # (names, vals, max steps, rows per db, view, sample)
     # ("d-1" is a name that has to be written in double quotes: databases are not only those with identifier-like names)
     "quick": [('{"a", "A", "b"}', "{1, 2}", 8, 2, "ViewLast2", None), ('{"a", "b"}', "{1}", 11, 2, "ViewLast", None),
-              ('{"d-1", "b"}', "{1}", 9, 2, "ViewLast", None)],
+              ('{"d-1", "b"}', "{1}", 9, 2, "ViewLast", None),
+              # mu1 / mu2 are written as the micro sign + s and the Greek mu + s: equal under case folding, different in lower case
+              ('{"mu1", "mu2"}', "{1}", 9, 2, "ViewLast", None)],
     "thorough": [('{"a", "A", "b"}', "{1, 2}", 10, 2, "ViewLast2", 150000), ('{"a", "b", "c"}', "{1}", 8, 2, "ViewN", 150000), ('{"a", "b"}', "{1}", 13, 2, "ViewLast2", 150000),
                  ('{"d-1", "b"}', "{1}", 11, 2, "ViewLast", 100000)],
 }
